@@ -50,7 +50,8 @@ def _known_front(rec, f):
     """signature: {"class": <violation class>, "kind_contains": <substring of the position kind>, "outcome": <observed>}"""
     s = f.get("signature", {})
     return (rec.get("class") == s.get("class") and s.get("kind_contains", "") in rec.get("kind", "")
-            and rec.get("observed") == s.get("outcome"))
+            and rec.get("observed") == s.get("outcome") and s.get("rustc_contains", "") in (rec.get("rustc") or "")
+            and s.get("summary_contains", "") in (rec.get("summary") or ""))
 
 
 # ------------------------------------------------------------------------------------------------ files
